@@ -378,6 +378,10 @@ ADAPTORS = {
     "std::option::Option::<T>::ok_or_else": "opt_ok_or_else",
     "std::option::Option::<T>::filter": "opt_filter",
     "std::option::Option::<T>::take_if": "opt_take_if",
+    "core::bool::<impl bool>::then": "bool_then",
+    "std::bool::<impl bool>::then": "bool_then",
+    "core::bool::<impl bool>::then_some": "bool_then_some",
+    "std::bool::<impl bool>::then_some": "bool_then_some",
     "std::result::Result::<T, E>::map": "res_map",
     "std::result::Result::<T, E>::and_then": "res_and_then",
     "std::result::Result::<T, E>::unwrap_or_else": "res_unwrap_or_else",
@@ -740,6 +744,24 @@ class Desugar:
         blk["stmts"].append(self.use(X, t["args"][0], span))
         blk["stmts"].append(self.st(d, {"k": "disc", "place": copy.deepcopy(deref)}, span))
         blk["term"] = {"k": "switch", "discr": _mv(d), "discr_ty": "isize", "targets": [[0, none_b], [1, entry]], "otherwise": u, "span": span, "desugared": t.get("callee")}
+
+    def _bool_two_way(self, body, blk, t, on_true):
+        span, chain = t["span"], blk.get("inl", ())
+        dest, target = t["dest"]["l"], t["target"]
+        B = self.new_local(body, "bool")
+        none_b = self.new_block(body, [self.st(dest, _agg(OPT, "None", []), span)], self.goto(target, span), chain)
+        some_b = on_true(lambda rv: self.new_block(body, [self.st(dest, rv, span)], self.goto(target, span), chain))
+        blk["stmts"].append(self.use(B, t["args"][0], span))
+        blk["term"] = {"k": "switch", "discr": _mv(B), "discr_ty": "bool", "targets": [[0, none_b]], "otherwise": some_b, "span": span, "desugared": t.get("callee")}
+
+    def d_bool_then(self, body, blk, t, marks):
+        """b.then(f): if b { Some(f()) } else { None }"""
+        f = self.need_callable(body, t["args"][1], marks)
+        self._bool_two_way(body, blk, t, lambda done: self._call_then(body, blk, t, f, [], lambda R: _agg(OPT, "Some", [_mv(R)])))
+
+    def d_bool_then_some(self, body, blk, t, marks):
+        """b.then_some(v): if b { Some(v) } else { None }  (v is evaluated before the call either way)"""
+        self._bool_two_way(body, blk, t, lambda done: done(_agg(OPT, "Some", [t["args"][1]])))
 
     def d_res_map(self, body, blk, t, marks):
         f = self.need_callable(body, t["args"][1], marks)
